@@ -110,7 +110,7 @@ def run(ctx):
             cats[cat] = chr(cp)
     values += list(cats.values())
     ctx.note("unicode_categories_sampled", sorted(cats))
-    nrand = ctx.n(8000, 1500000)
+    nrand = ctx.n(30000, 1500000)
     values_random = [random_value(rnd, not ctx.quick()) for _ in range(nrand)]
     allv = [(i, v) for i, v in enumerate(values) if ctx.mine(i)] + [(None, v) for v in values_random]
     keys = list(evs)
